@@ -1031,3 +1031,62 @@ def build_T8q(tree):
 
 
 TARGETS['T8q'] = {'file': 'seg/sop.py', 'build': build_T8q}
+
+
+def build_T8s(tree):
+    """`segmented_property_categories` / `segmented_property_types` / `get_segment_description`: the shape of the loops —
+    which attribute of the description is collected, which items are skipped, how membership is tested, what is appended; and
+    for `get_segment_description` which attribute is compared and what happens when nothing matches.  Model:
+    `SegMeta.propertyCategories`, `propertyTypes`, `getSegmentDescription`."""
+    cls = find_func(tree, 'Segmentation')
+    rows = []
+    for name in ('segmented_property_categories', 'segmented_property_types'):
+        fn = [n for n in cls.body if isinstance(n, ast.FunctionDef) and n.name == name]
+        if len(fn) != 1:
+            raise Unsupported(f'{name} not found')
+        body = strip_doc(fn[0].body)
+        if len(body) != 3 or not isinstance(body[0], ast.Assign) or not isinstance(body[1], ast.For) or not isinstance(body[2], ast.Return):
+            raise Unsupported(f'{name} is no longer `acc = []; for …; return acc`')
+        acc = _norm(body[0].targets[0])
+        if _norm(body[0].value) != '[]' or _norm(body[2].value) != acc:
+            raise Unsupported(f'{name}: accumulator is not an empty list that is returned')
+        loop = body[1]
+        if _norm(loop.iter) != 'self.SegmentSequence' or not isinstance(loop.target, ast.Name) or loop.orelse:
+            raise Unsupported(f'{name}: loop is not over self.SegmentSequence')
+        v = loop.target.id
+        if len(loop.body) != 2 or not all(isinstance(x, ast.If) for x in loop.body):
+            raise Unsupported(f'{name}: loop body is no longer skip-test + membership-test')
+        skip, memb = loop.body
+        if not (len(skip.body) == 1 and isinstance(skip.body[0], ast.Continue) and not skip.orelse):
+            raise Unsupported(f'{name}: the skip test no longer `continue`s')
+        t = memb.test
+        if not (isinstance(t, ast.Compare) and len(t.ops) == 1 and isinstance(t.ops[0], (ast.NotIn, ast.In)) and not memb.orelse
+                and len(memb.body) == 1 and isinstance(memb.body[0], ast.Expr) and isinstance(memb.body[0].value, ast.Call)):
+            raise Unsupported(f'{name}: membership test changed')
+        call = memb.body[0].value
+        rows.append((name, 'skip', _norm(skip.test).replace(v + '.', 'desc.')))
+        rows.append((name, 'test', ('not in' if isinstance(t.ops[0], ast.NotIn) else 'in') + ' ' + _norm(t.comparators[0]).replace(acc, 'acc')))
+        rows.append((name, 'collect', _norm(t.left).replace(v + '.', 'desc.')))
+        rows.append((name, 'do', _norm(call).replace(acc, 'acc').replace(v + '.', 'desc.')))
+    fn = [n for n in cls.body if isinstance(n, ast.FunctionDef) and n.name == 'get_segment_description']
+    if len(fn) != 1:
+        raise Unsupported('get_segment_description not found')
+    body = strip_doc(fn[0].body)
+    if len(body) != 2 or not isinstance(body[0], ast.For) or not isinstance(body[1], ast.Raise):
+        raise Unsupported('get_segment_description is no longer `for …: if …: return …` followed by `raise`')
+    loop = body[0]
+    if _norm(loop.iter) != 'self.SegmentSequence' or len(loop.body) != 1 or not isinstance(loop.body[0], ast.If) \
+            or len(loop.body[0].body) != 1 or not isinstance(loop.body[0].body[0], ast.Return) or loop.body[0].orelse or loop.orelse:
+        raise Unsupported('get_segment_description: loop body changed')
+    v = loop.target.id
+    rows.append(('get_segment_description', 'test', _norm(loop.body[0].test).replace(v + '.', 'desc.')))
+    rows.append(('get_segment_description', 'do', 'return ' + _norm(loop.body[0].body[0].value).replace(v, 'desc')))
+    exc = body[1].exc
+    rows.append(('get_segment_description', 'else', 'raise ' + (ast.unparse(exc.func) if isinstance(exc, ast.Call) else ast.unparse(exc))))
+    t = ('/-- the shape of the description accessors: (function, role, normalised source text) -/\n'
+         'def descriptionAccessors : List (String × String × String) :=\n  [' +
+         ',\n   '.join('("%s", "%s", "%s")' % (a, b, c.replace('\\', '\\\\').replace('"', '\\"')) for a, b, c in rows) + ']')
+    return t, hashlib.sha256(repr(rows).encode()).hexdigest()
+
+
+TARGETS['T8s'] = {'file': 'seg/sop.py', 'build': build_T8s}
